@@ -1562,6 +1562,22 @@ class Evaluator:
             v = self.apply_local(self.localdefs[e.func.id], args, fr)
             if v is not None:
                 return v
+        if isinstance(e.func, ast.Call) and isinstance(e.func.func, ast.Name) and e.func.func.id == "type" and "type" not in fr.env and len(e.func.args) == 1 \
+                and not e.func.keywords:
+            # ``type(x)(..)`` / ``x.__class__(..)`` constructs an object of x's class (known when x is the object under analysis)
+            try:
+                c_ = self.type_of(self.expr(e.func.args[0], fr))
+            except Unsupported:
+                c_ = None
+            if c_ is not None:
+                return self.construct(c_, args, kwargs, fr)
+        if isinstance(e.func, ast.Attribute) and e.func.attr == "__class__":
+            try:
+                c_ = self.type_of(self.expr(e.func.value, fr))
+            except Unsupported:
+                c_ = None
+            if c_ is not None:
+                return self.construct(c_, args, kwargs, fr)
         if isinstance(e.func, ast.Name) and fr.env.get(e.func.id, ("?",))[0] == "cls":
             # a local name bound to a class of the package: the call constructs it
             c_ = self.model.maybe_cls(fr.env[e.func.id][1])
